@@ -65,6 +65,9 @@ def run(ctx):
     shared.request_from_url(ctx, "C02-R6")
     shared.headers_store_identity(ctx, "C02-R6")
 
+    ctx.rule("C02-R7", "the request stream is never dropped with a cancelled branch of the worker loop (its HEADERS frame is read in a task that owns it)")
+    shared.acceptor_branches(ctx, "C02-R7")
+
     ctx.rule("C02-R4", "decision mirror")
     shared.connect_response_table(ctx, "C02-R4")
     f = A.find1(r"^wtransport::endpoint::SessionRequest::accept_impl::\{closure#0\}$")
